@@ -195,6 +195,14 @@ impl GuardedDbFields {
     }
 }
 
+#[cfg(feature = "verif")]
+impl DB {
+    /// Verification hook: flush the memtable to a table file and wait for it (private `force_memtable_compaction`).
+    pub fn flush_for_verif(&self) -> bool {
+        self.force_memtable_compaction().is_ok()
+    }
+}
+
 /// The primary database object that exposes the public API.
 pub struct DB {
     /// Options for configuring the operation of the database.
